@@ -789,3 +789,23 @@ package ps
 //@                        forall m int :: 0 <= m && m < len(signers) ==> pts[m] == p.parties2EvalPoints[signers[m]]
 //@   loop 0: invariant [points] len(evaluationPoints) == len(signers) && forall m int :: 0 <= m && m <= rangeindex#1 ==> signers[m] in p.parties2EvalPoints && evaluationPoints[m] == p.parties2EvalPoints[signers[m]]
 //@   loop 1: invariant [points] len(evaluationPoints) == len(signers) && forall m int :: 0 <= m && m < len(signers) ==> evaluationPoints[m] == p.parties2EvalPoints[signers[m]]
+//@   // the aggregated witness is proved under the threshold key, for the base and the message of the client's own secret
+//@   on-call PoKofSig(pp1, pk1, h1, hp1, msg1):
+//@     assert [own-secret]    h1 == us.h && same(msg1, us.msg) && hp1 == hPrime
+//@     assert [threshold-key] pk1.X == p.tpk.X && same(pk1.Y, p.tpk.Y)
+
+// ---- the client-side wrappers hand the library functions exactly the client's own material (C08) ------------------------
+
+//@ // a partial signature is unblinded with the secret of the request it answers and checked under the published key of the
+//@ // signer it is attributed to
+//@ func (*Prover).UnBlind
+//@   props C08
+//@   on-call UnBlind(pp1, pk1, s1, h1, msg1, z1):
+//@     assert [own-secret] h1 == secret.h && z1 == secret.z && same(msg1, secret.msg)
+//@     assert [signer-key] party in p.publicKeysOfParties ==> pk1.X == p.publicKeysOfParties[party].X && same(pk1.Y, p.publicKeysOfParties[party].Y)
+//@
+//@ // the request is built over the hashes of the caller's message components, in order, with the prover's own parameters
+//@ func (*Prover).Blind
+//@   props C08
+//@   on-call Blind(pp1, c1, m1):
+//@     assert [message] c1 == p.c && len(m1) == len(msg)
